@@ -251,6 +251,9 @@ class MemSpec:
         self._cache = {}
         self.it = None
         self.snaps = {}
+        self.reported = set()
+        self.sysm = sysm
+        self.idle_inputs = 0
         if self.rtlil:
             from amaranth.back import rtlil
             from ..rtlil.parse import parse
@@ -458,6 +461,13 @@ class MemSpec:
 
     def _done(self, rows, regs, dfn, errs, flags):
         m2 = (tuple(rows), tuple(regs), tuple(dfn))
+        if self.rst == 2:
+            # an asynchronous reset is level sensitive: release it before the explorer reads / loads register states, so that a
+            # loaded state is never one the held reset makes impossible (releasing a reset changes no register)
+            self.sysm.set_inputs(self.idle_inputs)
+        # one report per kind and configuration (breadth-first order: the first one has a shortest path)
+        errs = [e for e in errs if e.partition("|")[0] not in self.reported]
+        self.reported.update(e.partition("|")[0] for e in errs)
         if self.it is not None and m2 not in self.snaps:
             self.snaps[m2] = self.it.snapshot()
         return m2, errs, tuple(sorted(set(flags)))
@@ -475,7 +485,7 @@ class MemSpec:
                     flags.append("comb-read")
                     if obs[j] != rows[ad]:
                         errs.append(f"r{j}:comb-read-data|{when}: asynchronous read port r{j} addr {ad} outputs {obs[j]}, row holds {rows[ad]}")
-                    if it is not None and it.get(f"r{j}_data") != obs[j] and self.width:
+                    if it is not None and self.width and it.get(f"r{j}_data") != obs[j]:
                         errs.append(f"rtlil:r{j}:comb-read-data|{when}: r{j} addr {ad}: simulator {obs[j]}, RTLIL {it.get(f'r{j}_data')}")
                 else:
                     flags.append("comb-read-beyond-depth")
@@ -535,7 +545,7 @@ def cost_of(shape, depth, doms, wports, rports, rst):
     return states, acts + depth * D
 
 
-def grid(budget, depths=range(0, 5), max_ports=2, max_total=3, rst_modes=(0, 1)):
+def grid(budget, depths=range(0, 5), max_ports=2, max_total=3, rst_modes=(0, 1), max_rst_ports=2):
     """every configuration with at most max_ports write and max_ports read ports (max_total together) whose estimated
     states x actions fits the budget; degenerate memories (zero-width rows or depth 0) only with one posedge domain and <= 2 ports"""
     out = []
@@ -566,7 +576,7 @@ def grid(budget, depths=range(0, 5), max_ports=2, max_total=3, rst_modes=(0, 1))
                                     continue                   # a/b symmetric
                                 has_sync_r = any(dm >= 0 for dm, _t in rps)
                                 for rst in rst_modes:
-                                    if rst and not has_sync_r:
+                                    if rst and (not has_sync_r or nw + nr > max_rst_ports):
                                         continue
                                     st, ac = cost_of(shape, depth, doms, wps, rps, rst)
                                     if st * ac <= budget:
@@ -611,14 +621,14 @@ NEED = ("write", "write-partial", "write-beyond-depth", "write-disabled", "read-
 
 
 def configs(rep):
-    """quick: <= 3 ports, budget 5000, depth 0..4, reset none/sync (+ async reset on small single-port memories);
-    thorough: <= 3 ports, budget 50000, depth 0..5, reset none/sync/async, plus 2 write + 2 read ports up to budget 8000"""
-    budget = rep.pick(5_000, 50_000)
+    """quick: <= 3 ports, budget 2000, depth 0..4, reset none/sync (+ async reset on small single-port memories);
+    thorough: <= 3 ports, budget 30000, depth 0..5, reset none/sync/async, plus 2 write + 2 read ports up to budget 6000"""
+    budget = rep.pick(2_000, 30_000)
     g = grid(budget, depths=range(0, 5) if rep.quick else range(0, 6), rst_modes=(0, 1) if rep.quick else (0, 1, 2))
     if rep.quick:
         g += grid(1_500, depths=(2, 3), max_ports=1, rst_modes=(2,))
     else:
-        g += grid(8_000, depths=range(0, 5), max_total=4, rst_modes=(0, 1))
+        g += grid(6_000, depths=range(0, 5), max_total=4, rst_modes=(0, 1))
     seen, out = set(), []
     for c, cost in g:
         if c not in seen:
